@@ -492,7 +492,7 @@ func (viso *VirtualISO) makeVolumeDescriptors(volumeName string) {
 		},
 		Primary: &primaryVolumeDescriptorBody{
 			SystemIdentifier:              mangleStrA(runtime.GOOS, false),
-			VolumeIdentifier:              mangleStrD(volumeName, false),
+			VolumeIdentifier:              mangleStrD(volumeName, false).truncate(32),
 			VolumeSpaceSize:               viso.volumeSizeSectors,
 			VolumeSetSize:                 1,
 			VolumeSequenceNumber:          1,
@@ -501,7 +501,7 @@ func (viso *VirtualISO) makeVolumeDescriptors(volumeName string) {
 			TypeLPathTableLoc:             pathTableLLBA,
 			TypeMPathTableLoc:             pathTableMLBA,
 			ApplicationIdentifier:         "ps3netsrv",
-			VolumeSetIdentifier:           mangleStrD(volumeName, false),
+			VolumeSetIdentifier:           mangleStrD(volumeName, false).truncate(128),
 			VolumeCreationDateAndTime:     volumeDescriptorTimestampFromTime(now),
 			VolumeModificationDateAndTime: volumeDescriptorTimestampFromTime(now),
 			FileStructureVersion:          1,
@@ -517,7 +517,7 @@ func (viso *VirtualISO) makeVolumeDescriptors(volumeName string) {
 		},
 		Primary: &primaryVolumeDescriptorBody{
 			SystemIdentifier:              mangleStrA(runtime.GOOS, true),
-			VolumeIdentifier:              mangleStrD(volumeName, true),
+			VolumeIdentifier:              mangleStrD(volumeName, true).truncate(32),
 			VolumeSpaceSize:               viso.volumeSizeSectors,
 			EscapeSequences:               "%/@",
 			VolumeSetSize:                 1,
@@ -527,7 +527,7 @@ func (viso *VirtualISO) makeVolumeDescriptors(volumeName string) {
 			TypeLPathTableLoc:             pathTableJolietLLBA,
 			TypeMPathTableLoc:             pathTableJolietMLBA,
 			ApplicationIdentifier:         "ps3netsrv",
-			VolumeSetIdentifier:           mangleStrD(volumeName, true),
+			VolumeSetIdentifier:           mangleStrD(volumeName, true).truncate(128),
 			VolumeCreationDateAndTime:     volumeDescriptorTimestampFromTime(now),
 			VolumeModificationDateAndTime: volumeDescriptorTimestampFromTime(now),
 			FileStructureVersion:          1,
